@@ -1,43 +1,32 @@
 package chainsim
 
 import (
+	"math/big"
 	"testing"
 
+	"github.com/dominant-strategies/go-quai/consensus/misc"
+	"github.com/dominant-strategies/go-quai/core/rawdb"
+	"github.com/dominant-strategies/go-quai/core/types"
 	"verif/sim/simkit"
 )
 
 func TestExplore(t *testing.T) {
-	tape := []Op{{OpDeploy, 0, 0, 0, 0}, {OpMine, 2, 0, 0, 0}, {OpMine, 2, 0, 1, 0}, {OpLockupMode, 1, 1, 0, 0}}
-	for i := 0; i < 16; i++ {
-		tape = append(tape, Op{OpMine, []int{0, 2, 1}[i%3], 0, i, 1})
-	}
-	tape = append(tape, Op{OpClaim, 0, 0, 1, 0}, Op{OpMine, 2, 0, 1, 1}, Op{OpMine, 0, 0, 2, 1}, Op{OpClaim, 0, 0, 1, 1}, Op{OpMine, 2, 0, 3, 1}, Op{OpMine, 0, 0, 3, 1}, Op{OpMine, 2, 0, 4, 1}, Op{OpMine, 0, 0, 5, 1}, Op{OpMine, 2, 0, 6, 1})
-	res := runChainP(t, simkit.NewTrace(), DefaultNodeConfig("n0"), DefaultRegime(), 1, tape, func(r *Runner) Hooks {
+	tape := []Op{{OpQiBurst, 10, 0, 15, 0}, {OpMine, 2, 0, 0, 0}, {OpMine, 0, 0, 1, 0}, {OpMine, 2, 0, 2, 0}, {OpMine, 0, 0, 3, 0}, {OpMine, 2, 0, 4, 0}, {OpMine, 0, 0, 5, 0}, {OpMine, 2, 0, 6, 0}, {OpMine, 0, 0, 7, 0}, {OpMine, 2, 0, 8, 0}}
+	runChainP(t, simkit.NewTrace(), DefaultNodeConfig("n0"), DefaultRegime(), 1, tape, func(r *Runner) Hooks {
 		return Hooks{AfterHead: func(w *World, n *Node, bi *BlockInfo, reorg bool) {
 			blk := n.Zone().GetBlockByHash(bi.Hash)
-			locks, _ := scanLockups(n)
-			hdr := blk.Header()
-			st, _ := n.Zone().StateAt(hdr.EVMRoot(), hdr.EtxSetRoot(), hdr.QuaiStateSize())
-			code := 0
-			if len(r.Contracts) > 0 {
-				ci, _ := r.Contracts[0].InternalAndQuaiAddress()
-				code = len(st.GetCode(ci))
-			}
-			t.Logf("#%d order=%d txs=%d etxs=%d lockups=%d code=%d woData=%x bal4=%v", bi.Number, bi.Order, len(blk.Transactions()), len(blk.OutboundEtxs()), len(locks), code, blk.WorkObjectHeader().Data(), st.GetBalance(quaiAccounts[4].Int))
-			for k, v := range locks {
-				t.Logf("     lock %s bal=%v unlock=%d n=%d", k, v.Balance, v.Unlock, v.Elements)
-			}
 			for _, e := range blk.OutboundEtxs() {
-				if e.EtxType() != 1 {
-					t.Logf("     OUT etx type=%d val=%v", e.EtxType(), e.Value())
+				if types.IsConversionTx(e) {
+					t.Logf("#%d OUT conv val=%v toQuai=%v", bi.Number, e.Value(), e.To().IsInQuaiLedgerScope())
 				}
 			}
-			for _, e := range blk.Transactions() {
-				if e.Type() == 1 && e.EtxType() != 1 {
-					t.Logf("     IN etx type=%d val=%v", e.EtxType(), e.Value())
+			for _, d := range rawdb.ReadInboundEtxs(n.DBs[2], bi.Hash) {
+				if d.EtxType() == types.ConversionType || d.EtxType() == types.ConversionRevertType {
+					pb := n.Prime().GetBlockByHash(bi.Hash)
+					t.Logf("#%d order=%d DELIVERED type=%d val=%v  | QiToQuai(1000)=%v QiToQuai(10000)=%v exch=%v mdiff=%v diff=%v kqd=%v cfa=%v", bi.Number, bi.Order, d.EtxType(), d.Value(),
+						misc.QiToQuai(pb, pb.ExchangeRate(), pb.MinerDifficulty(), big.NewInt(1000)), misc.QiToQuai(pb, pb.ExchangeRate(), pb.MinerDifficulty(), big.NewInt(10000)), pb.ExchangeRate(), pb.MinerDifficulty(), pb.Difficulty(), pb.KQuaiDiscount(), pb.ConversionFlowAmount())
 				}
 			}
 		}}
 	})
-	t.Logf("%v", res.stats)
 }
